@@ -55,7 +55,7 @@ peg::parser! {
             ['\\'] [c] { c.to_string() }
 
         rule bracket_expression() -> String =
-            "[" invert:(invert_char()?) members:bracket_member()+ "]" {
+            "[" invert:(invert_char()?) members:bracket_members() "]" {
                 let mut members = members.into_iter().flatten().collect::<Vec<_>>();
 
                 // If we completed the parse but ended up with no valid members
@@ -78,6 +78,16 @@ peg::parser! {
 
         rule invert_char() -> bool =
             ['!' | '^'] { true }
+
+        rule bracket_members() -> Vec<Option<String>> =
+            // A closing bracket that comes first is an ordinary member, not the end
+            // of the expression.
+            "]" rest:bracket_member()* {
+                let mut members = vec![Some(String::from(r"\]"))];
+                members.extend(rest);
+                members
+            } /
+            bracket_member()+
 
         rule bracket_member() -> Option<String> =
             e:char_class_expression() { Some(e) } /
